@@ -606,13 +606,13 @@ func (x *TopicsIndex) scanSubscribers(topic string, d int, n *particle, subs *Su
 				x.scanSubscribers(topic, d+1, particle, subs)
 			} else {
 				x.gatherSubscriptions(topic, particle, subs)
-				x.gatherSharedSubscriptions(particle, subs)
-				x.gatherInlineSubscriptions(particle, subs)
+				x.gatherSharedSubscriptions(topic, particle, subs)
+				x.gatherInlineSubscriptions(topic, particle, subs)
 
-				if wild := particle.particles.get("#"); wild != nil && partKey != "+" {
+				if wild := particle.particles.get("#"); wild != nil {
 					x.gatherSubscriptions(topic, wild, subs) // also match any subs where filter/# is filter as per 4.7.1.2
-					x.gatherSharedSubscriptions(wild, subs)
-					x.gatherInlineSubscriptions(particle, subs)
+					x.gatherSharedSubscriptions(topic, wild, subs)
+					x.gatherInlineSubscriptions(topic, wild, subs)
 				}
 			}
 		}
@@ -620,8 +620,8 @@ func (x *TopicsIndex) scanSubscribers(topic string, d int, n *particle, subs *Su
 
 	if particle := n.particles.get("#"); particle != nil {
 		x.gatherSubscriptions(topic, particle, subs)
-		x.gatherSharedSubscriptions(particle, subs)
-		x.gatherInlineSubscriptions(particle, subs)
+		x.gatherSharedSubscriptions(topic, particle, subs)
+		x.gatherInlineSubscriptions(topic, particle, subs)
 	}
 
 	return subs
@@ -648,13 +648,18 @@ func (x *TopicsIndex) gatherSubscriptions(topic string, particle *particle, subs
 }
 
 // gatherSharedSubscriptions gathers all shared subscriptions for a particle.
-func (x *TopicsIndex) gatherSharedSubscriptions(particle *particle, subs *Subscribers) {
+func (x *TopicsIndex) gatherSharedSubscriptions(topic string, particle *particle, subs *Subscribers) {
 	if subs.Shared == nil {
 		subs.Shared = map[string]map[string]packets.Subscription{}
 	}
 
+	wildStart := particle.wildStart()
 	for _, shares := range particle.shared.GetAll() {
 		for client, sub := range shares {
+			if topic[0] == '$' && wildStart { // don't match $ topics with top level wildcards [MQTT-4.7.1-1] [MQTT-4.7.1-2]
+				continue
+			}
+
 			if _, ok := subs.Shared[sub.Filter]; !ok {
 				subs.Shared[sub.Filter] = map[string]packets.Subscription{}
 			}
@@ -665,9 +670,13 @@ func (x *TopicsIndex) gatherSharedSubscriptions(particle *particle, subs *Subscr
 }
 
 // gatherSharedSubscriptions gathers all inline subscriptions for a particle.
-func (x *TopicsIndex) gatherInlineSubscriptions(particle *particle, subs *Subscribers) {
+func (x *TopicsIndex) gatherInlineSubscriptions(topic string, particle *particle, subs *Subscribers) {
 	if subs.InlineSubscriptions == nil {
 		subs.InlineSubscriptions = map[int]InlineSubscription{}
+	}
+
+	if topic[0] == '$' && particle.wildStart() { // don't match $ topics with top level wildcards [MQTT-4.7.1-1] [MQTT-4.7.1-2]
+		return
 	}
 
 	for id, inline := range particle.inlineSubscriptions.GetAll() {
@@ -764,6 +773,15 @@ type particle struct {
 	inlineSubscriptions *InlineSubscriptions // a map of inline subscriptions for this particle
 	retainPath          string               // path of a retained message
 	sync.Mutex                               // mutex for when making changes to the particle
+}
+
+// wildStart returns true if the filter address of the particle begins with a wildcard level.
+func (p *particle) wildStart() bool {
+	for p.parent != nil && p.parent.parent != nil {
+		p = p.parent
+	}
+
+	return p.key == "+" || p.key == "#"
 }
 
 // newParticle returns a pointer to a new instance of particle.
